@@ -102,9 +102,9 @@ class Abs:
         ix = self.ix
         for c in conds:
             at, o = c[0], c[1]
-            if tag(at) == "op" and payload(at)[0] == "eq" and len(kids(at)) == 2 and o in (True, False):
+            if tag(at) == "op" and payload(at)[0] in ("eq", "ne") and len(kids(at)) == 2 and o in (True, False):
                 l, r = self.ev(kids(at)[0]), self.ev(kids(at)[1])
-                if isinstance(l, str) and isinstance(r, str) and (l == r) != o:
+                if isinstance(l, str) and isinstance(r, str) and ((l == r) == (payload(at)[0] == "eq")) != o:
                     return False
             if tag(at) == "op" and payload(at)[0] in ("gt", "lt") and o in (True, False):
                 l = self.ev(kids(at)[0])
@@ -469,6 +469,9 @@ def run(ctx):
                                             if tag(ca) == "op" and payload(ca)[0] == "discr" and isinstance(co, tuple) and (em.tmp(kids(ca)[0], "side") or rst.s(kids(ca)[0]) == getattr(rst, "msgfield", lambda _n: None)("side")):
                                                 if tside is not None and ((co[0] == "variant" and tside != co[1]) or (co[0] == "other" and tside in co[1])):
                                                     feas2 = False
+                                            # ... or a bool the caller computed from the side (`signed(amount, side == Side::Sell)`)
+                                            if feas2 and not ra.conds_feasible([(ca, co)]):
+                                                feas2 = False
                                         if feas2:
                                             cands.add(N(ix, rst.c(ret)))
                                     if len(cands) == 1:
